@@ -65,6 +65,8 @@ DD_PROBE_EXPECTED = [
     "panic_while_asking run=recv edges_after_hook=0 callback=send boss=panic peer=ended edges_end=0 poisoned=false",
     "select_drops_ask run=ok99 edges_after_hook=0 callback=ok1 boss=ended peer=ended edges_end=0 poisoned=false",
     "timeout_drops_ask run=ok98 edges_after_hook=0 callback=ok1 boss=ended peer=ended edges_end=0 poisoned=false",
+    "overlapping_asks_first_ends_first run=ok12 edges_after_hook=0 callback=ok1 boss=ended peer=ended edges_end=0 poisoned=false",
+    "callback_during_ask_join run=ok11 edges_after_hook=1 callback=ok1 boss=ended peer=ended edges_end=0 poisoned=false",
 ]
 
 
@@ -90,7 +92,7 @@ def extra_lazy_probe(tier, seed):
     first poll."""
     bins = vlib.build_harness((), bins=("director", "lazy_probe"))
     real = probe([bins["lazy_probe"]], 300).strip().splitlines()
-    want = "unpolled=[] deferred=[2, 1] raced=[8] oks=111 late=1"
+    want = "unpolled=[] deferred=[2, 1] raced=[8] oks=111 late=1 overdue=1"
     viol = []
     bad = [l for l in real if l.split(" ", 1)[1] != want]
     if bad or len(real) != 8:
@@ -271,8 +273,22 @@ def extra_macro_corpus(tier, seed):
                 timeout=3000)
     viol = []
     if p.returncode != 0:
-        viol.append(dict(what="macro corpus could not be built/run (exit %d)" % p.returncode, detail=(p.stdout + p.stderr)[-3000:],
-                         suffix=" no-failing-input-found"))
+        import re as _re
+        txt = p.stdout + p.stderr
+        m = _re.search(r"--> src/([cdh]\d{4})\.rs", txt)
+        case_line = None
+        if m and os.path.exists(os.path.join(out, "cases.txt")):
+            case_line = next((l.strip() for l in open(os.path.join(out, "cases.txt")) if l.startswith(m.group(1) + " ")), None)
+        if case_line:
+            # a positive case of the corpus (a program the model accepts, and that compiles on the
+            # unchanged tree) is rejected by rustc after macro expansion: that program is the input
+            src = os.path.join(out, "corpus", "src", m.group(1) + ".rs")
+            viol.append(dict(what="a handler the model accepts no longer compiles after macro expansion",
+                             case=case_line, program=open(src).read().splitlines() if os.path.exists(src) else None,
+                             rustc=txt[txt.find("error"):][:1500]))
+        else:
+            viol.append(dict(what="macro corpus could not be built/run (exit %d)" % p.returncode, detail=txt[-3000:],
+                             suffix=" no-failing-input-found"))
         return dict(violations=viol, coverage=dict(programs=0))
     cases = {}
     for l in open(os.path.join(out, "cases.txt")):
@@ -520,6 +536,7 @@ PROPS = {
         props_file="Props/C10.v",
         families=[("time", NONE, 250), ("core", NONE, 50), ("block", NONE, 20)],
         projection="C10", monitors=["C10"],
+        extra=[extra_lazy_probe],
         level_note="Async variants: proved on the model's virtual clock and checked on tokio's paused clock. That tokio's timer wakes the task at the deadline, and the wall-clock behaviour of the blocking variants' helper thread, are runtime facts outside the model (partial).",
     ),
     "C13": dict(
@@ -565,7 +582,7 @@ PROPS = {
         props_file="Props/C18.v",
         families=[("core", ("dd", "metrics", "testutils", "tracing"), 60)],
         projection="C18", monitors=["C04", "C05"],
-        extra=[extra_features],
+        extra=[extra_features, extra_dd_probe],
     ),
     "C19": dict(
         props_file="Props/C19.v",
@@ -577,8 +594,8 @@ PROPS = {
     ),
     "C20": dict(
         props_file="Props/C20.v",
-        families=[("core", ("metrics",), 150), ("fault", ("metrics",), 100)],
-        projection="C20", monitors=["C04"],
+        families=[("core", ("metrics",), 150), ("fault", ("metrics",), 100), ("endings", ("metrics",), 1)],
+        projection="C20", monitors=["C04", "C20"],
         extra=[extra_metrics_probe, extra_mt_stress_feat],
         level_note="Counts are proved and compared exactly; real durations are wall-clock values compared by inequality only (max >= a handler's own measured time, avg <= max, snapshot = accessors) - partial for the duration clauses.",
     ),
